@@ -1,5 +1,9 @@
 """C18 — Unit and quantity text: print-parse round-trip, SI meaning, rejection.
 
+Purity clause tested by the sequence stream (a consequence of the statement: a text is read with the meaning ITS
+SYMBOLS define): equal texts give equal results whatever was parsed or edited before, and the results of different
+parse calls share no mutable component.
+
 Theorems: lean/Strengths/Props/C18.lean (tables G1/G2 + text-pipeline constants regenerated from units.py).
 Correspondence: `parse_units`, `show_units`, `parse_unitvalue`, `show_unitvalue`, `units_eq`, `py_int`.
 Oracle (independent of the code and of the model's algorithm): the grammar's denotation — every symbol's
@@ -22,12 +26,13 @@ RULE = ("grammar: every 1-factor string (47 symbols + 5 u-spellings x exponent n
         "a/b and a.b-1 form and in permuted order; round trip: all 1100 systems x random exponent vectors, random finite "
         "doubles (raw bit patterns, decades, integers, denormals, extremes, -0.0) x random units; malformed: the 9 wrong "
         "examples of the documentation + families derived from them per rejection class, as unit text and inside quantity "
-        "text; a case is non-trivial when the text has at least one factor / the value is non-zero; distinct by text")
+        "text; purity: parse -> edit the result in place -> parse the same text again through every entry point (results must equal "
+        "the first reading and must not share components); a case is non-trivial when the text has at least one factor / the value is non-zero; distinct by text")
 ASSUMPTIONS = [
     "float(text) and str(float) of CPython are trusted primitives (model parameters pyFloat / pyRepr); the harness checks the "
     "bitwise round trip float(str(x)) == x on every generated double",
-    "non-ASCII decimal digits (accepted by Python's int()) and exponent spellings int() tolerates but the grammar does not "
-    "list ('02', '1_0', '-0') are outside the statement's rejection classes and are not generated as malformed",
+    "exponent spellings the strict reader still accepts although the grammar writes them differently ('02', '-0', '007') are "
+    "outside the statement's rejection classes and are not generated as malformed",
 ]
 TRUSTED = ["Python-side SI oracle (prefix table of props/c06.py) and grammar denotation below",
            "Python's float()/str(float) as supplied to the model by the harness (table of token -> exact rational)"]
@@ -241,7 +246,7 @@ def unknown_symbol(rng):
 def malformed_units(rng):
     """(class, text) — one unit string of a rejection class of the statement"""
     cls = rng.choice(["unknown-symbol", "doubled-separator", "dangling-separator", "signed-positive", "fractional-exponent",
-                      "misplaced-exponent", "embedded-blank", "two-units"])
+                      "misplaced-exponent", "embedded-blank", "two-units", "exotic-exponent"])
     fs = rand_valid(rng)
     i = rng.randrange(len(fs))
     sep, sym, ex = fs[i]
@@ -293,6 +298,31 @@ def malformed_units(rng):
         else:
             w = sym + str(e) + "-"                                            # sign after the exponent
         parts[i] = (parts[i][0], w)
+    elif cls == "exotic-exponent":
+        # exponent text that is not -?[0-9]+ : underscores, non-ASCII decimal digits, superscripts, inner / doubled /
+        # trailing signs, a lone sign
+        d = rng.randint(1, 9)
+        nonascii = lambda n, base: "".join(chr(base + int(ch)) for ch in str(n))  # noqa
+        how = rng.randrange(9)
+        if how == 0:
+            w = sym + "%d_%d" % (d, rng.randint(0, 9))
+        elif how == 1:
+            w = sym + rng.choice(["", "-"]) + nonascii(rng.randint(1, 30), rng.choice([0x0660, 0x06F0, 0x0966, 0xFF10, 0x09E6]))
+        elif how == 2:
+            w = sym + str(d) + nonascii(rng.randint(0, 9), rng.choice([0x0660, 0xFF10]))
+        elif how == 3:
+            w = sym + str(d) + rng.choice(["²", "³", "¹"])
+        elif how == 4:
+            w = sym + "%d-%d" % (d, rng.randint(1, 9))
+        elif how == 5:
+            w = sym + "--%d" % d
+        elif how == 6:
+            w = sym + "-"
+        elif how == 7:
+            w = sym + "%d-" % d
+        else:
+            w = sym + "-" + nonascii(d, 0x0660) + str(rng.randint(0, 9))
+        parts[i] = (parts[i][0], w)
     elif cls == "embedded-blank":
         b = rng.choice(BLANKS)
         txt = "".join(a + c for a, c in parts)
@@ -331,6 +361,57 @@ def malformed_values(rng):
         utxt = utxt + ".s" if utxt != "s" else "m.s"
     pos = rng.randint(1, len(utxt) - 1)
     return cls, val + " " + utxt[:pos] + rng.choice(BLANKS) + utxt[pos:]
+
+
+def _parse_via(entry, text):
+    """a Units object for `text` obtained through one of the public entry points"""
+    parse_units, parse_unitvalue, Units, UnitValue, UnitsSystem, UnitsDimensions = impl()
+    if entry == "parse_units":
+        return parse_units(text)
+    if entry == "Units":
+        return Units(text)
+    if entry == "parse_unitvalue":
+        return parse_unitvalue("4 " + text).units
+    if entry == "UnitValue":
+        return UnitValue("4 " + text).units
+    v = UnitValue(1.0, "")
+    v.units = text          # the units setter parses text
+    return v.units
+
+
+def reparse_sequence(case):
+    """parse `text`, edit the returned object in place, parse the same text again: the second reading must be what the
+    text denotes, and the two results must not share their system / dimension objects.  Returns None or
+    (key, what, impl, expected)."""
+    fs = [(f[0], f[1], f[2]) for f in case["factors"]]
+    text = case["text"]
+    spec = denote(fs)
+    if spec[0] != "ok":
+        return None
+    u1 = _parse_via(case["entry1"], text)
+    first = units_tuple(u1)
+    for what, k, amount in case["edits"]:
+        if what == "dim":
+            setattr(u1.dim, KINDS[k], getattr(u1.dim, KINDS[k]) + amount)
+        else:
+            pool = (SPACE, TIME, QTY)[k]
+            cur = getattr(u1.sys, KINDS[k])
+            setattr(u1.sys, KINDS[k], pool[(pool.index(cur) + amount) % len(pool)])
+    u2 = _parse_via(case["entry2"], text)
+    second = units_tuple(u2)
+    expected = {"dim": spec[1], "si": rstr(spec[2])}
+    if u2.sys is u1.sys or u2.dim is u1.dim or u2 is u1:
+        return ("purity:results-alias:%s" % case["entry2"], "two readings of %r share their system / dimension object" % text,
+                {"first": first, "second": second}, "independent objects")
+    ok = tuple(second[1]) == spec[1] and si_factor(second[0], second[1]) == spec[2]
+    if not ok:
+        return ("purity:reparse-after-edit:%s" % case["entry2"],
+                "%r read as %s %s after an earlier result object was edited in place (first reading: %s %s)"
+                % (text, second[0], second[1], first[0], first[1]), {"first": first, "second": second}, expected)
+    if tuple(first[1]) != spec[1] or si_factor(first[0], first[1]) != spec[2]:
+        return ("purity:first-reading:%s" % case["entry1"], "%r read as %s %s" % (text, first[0], first[1]),
+                {"first": first}, expected)
+    return None
 
 
 # ------------------------------------------------------------------------------------------------
@@ -551,6 +632,7 @@ def run(ctx):
     # ============================================================ 4. malformed text must raise
     mal = [("doc:" + t, "units", t) for t in DOC_WRONG_UNITS] + [("doc:" + t, "value", t) for t in DOC_WRONG_VALUES]
     mal += [("doc:1 " + t, "value", "1 " + t) for t in DOC_WRONG_UNITS]
+    mal += [("exotic-exponent", "units", t) for t in ["L-٢", "m2_0", "m٢", "m２", "s-１", "m2²", "m--2", "m2-", "m-", "m2-3", "mol1_0/s", "m-٣.s"]]
     mal += [("embedded-blank", "units", t) for t in ["m s", "m2 .s", "m-1 .s", "mol2\t/s", "m .s", "m. s", "m / s", "µ m", "k mol", "m 2", "m2 s-1"]]
     mal += [("blank-inside-units", "value", t) for t in ["1 m s", "1 mol/µm. s", "1 mol /L", "2 m 2", "1 m2 .s", "3 k mol", "1 m\ts", "1 mol/L s"]]
     for _ in range(ctx.n(5000, 150000)):
@@ -590,6 +672,23 @@ def run(ctx):
                 break
         if r is not None and ("error" in r) != ("error" in gots[0]):
             ctx.disagree("parse_units" if kind == "units" else "parse_unitvalue", case, gots[0], r)
+
+    # ============================================================ 4b. purity: parse -> edit the result -> parse again
+    # (equal inputs give equal outputs whatever happened before; results of different calls share no component)
+    entries = ["parse_units", "Units", "parse_unitvalue", "UnitValue", "units-setter"]
+    for i in range(ctx.n(600, 8000)):
+        fs = rand_valid(rng)
+        usp = rng.random() < 0.3
+        text = render(fs, usp)
+        edits = [(rng.choice(["dim", "sys"]), rng.randrange(3), rng.randint(1, 5)) for _ in range(rng.randint(1, 3))]
+        entry1, entry2 = rng.choice(entries), entries[i % len(entries)]
+        case = {"kind": "reparse", "text": text, "factors": [list(f) for f in fs], "edits": [list(e) for e in edits],
+                "entry1": entry1, "entry2": entry2}
+        ctx.case(("pur", text, entry1, entry2, tuple(edits)), nontrivial=True)
+        ctx.count("purity_reparse_" + entry2)
+        bad = reparse_sequence(case)
+        if bad is not None:
+            ctx.violation(bad[0], bad[1], case, impl=bad[2], expected=bad[3])
 
     # ============================================================ 5. Units.__eq__ and int() of exponent text
     ops, meta = [], []
@@ -709,6 +808,10 @@ def replay(ctx, rec):
             gots = [run_parse_value(t, False), run_parse_value(t, True)]
         out.update(impl=gots, expected="exception")
         ok = all("error" in g for g in gots)
+    elif kind == "reparse":
+        bad = reparse_sequence(case)
+        out.update(impl=None if bad is None else {"key": bad[0], "what": bad[1], "impl": bad[2]}, expected=None if bad is None else bad[3])
+        ok = bad is None
     elif kind == "units_eq":
         (s1, d1), (s2, d2) = case["a"], case["b"]
         got = bool(mk_units(s1, d1) == mk_units(s2, d2))
